@@ -1,1 +1,64 @@
-// harness bodies compiled inside quinn-proto/src/congestion/new_reno.rs (feature __verif-hooks)
+// Harness bodies for quinn-proto/src/congestion/new_reno.rs.
+
+const V62: u64 = 1 << 62;
+
+/// C12.a: one controller event from ANY NewReno state with window >= 2 * mtu: afterwards
+/// window() >= 2 * current_mtu, no overflow (window, ssthresh-independent, bytes <= 2^32).
+/// op 0 on_ack, 1 on_congestion_event, 2 on_mtu_update, 3 on_spurious_congestion_event (default no-op)
+pub fn step(window: u64, ssthresh: u64, bytes_acked: u64, mtu: u16, recovery_secs: u32, op: u8,
+            now_secs: u32, sent_secs: u32, bytes: u32, app_limited: bool, persistent: bool, ecn: bool, new_mtu: u16, factor_q: u8) -> u32 {
+    if mtu < 1200 || new_mtu < 1200 || window >= V62 || window < 2 * mtu as u64 || bytes_acked >= V62 || op > 3 {
+        return 0;
+    }
+    let (Some(now), Some(sent), Some(rec)) = (crate::verif::mk_instant(now_secs, 0), crate::verif::mk_instant(sent_secs, 0), crate::verif::mk_instant(recovery_secs, 0)) else { return 0 };
+    // loss_reduction_factor in {0, 1/4, 1/2, 3/4, 1}: exactly representable, keeps the f32 product tractable
+    if factor_q > 4 {
+        return 0;
+    }
+    let mut cfg = NewRenoConfig::default();
+    cfg.loss_reduction_factor(factor_q as f32 / 4.0);
+    let mut c = NewReno { config: Arc::new(cfg), current_mtu: mtu as u64, window, ssthresh, recovery_start_time: rec, bytes_acked };
+    let rtt = RttEstimator::new(crate::Duration::from_millis(100));
+    let f;
+    match op {
+        0 => {
+            c.on_ack(now, sent, bytes as u64, app_limited, &rtt);
+            assert!(c.window >= window);
+            if app_limited || sent_secs <= recovery_secs {
+                assert!(c.window == window && c.bytes_acked == bytes_acked);
+            }
+            f = 1;
+        }
+        1 => {
+            c.on_congestion_event(now, sent, persistent, ecn, bytes as u64);
+            if sent_secs <= recovery_secs {
+                assert!(c.window == window && c.ssthresh == ssthresh);
+            } else {
+                // (no upper-bound oracle: `window as f32` rounds for windows above 2^24)
+                assert!(c.ssthresh >= 2 * mtu as u64);
+                if !persistent {
+                    assert!(c.ssthresh == c.window);
+                }
+                if persistent {
+                    assert!(c.window == 2 * mtu as u64);
+                }
+            }
+            f = 2;
+        }
+        2 => {
+            c.on_mtu_update(new_mtu);
+            assert!(c.window == window.max(2 * new_mtu as u64));
+            f = 4;
+        }
+        _ => {
+            c.on_spurious_congestion_event();
+            assert!(c.window == window);
+            f = 8;
+        }
+    }
+    // the property: never below two datagrams
+    assert!(c.window() >= 2 * c.current_mtu);
+    assert!(c.window() == c.window);
+    core::mem::forget(c);
+    f
+}
